@@ -1,5 +1,6 @@
 import Resynth.Model.Cli
 import Resynth.Gen.Stdlib
+import Resynth.Model.Docs
 import Resynth.Spec.Pcap
 import Resynth.Spec.TcpDecode
 import Resynth.Spec.Rfc791
@@ -8,6 +9,9 @@ import Resynth.Spec.Net
 import Resynth.Spec.Grammar
 import Resynth.Spec.Lexical
 import Resynth.Spec.Calling
+import Resynth.Spec.Framing
+import Resynth.Spec.Dns
+import Resynth.Spec.Registry
 /-!
 # Line-protocol driver over the model: one request per line, one response per line.
 Mirrors /verif/harness (which runs the real Rust code) request for request.
@@ -247,6 +251,67 @@ def cmdProg (args : List String) : String :=
       s!"{fmtOutcome r.outcome} file={hexOrDash r.file} warnings={",".intercalate (r.warnings.map fmtLoc)} times={",".intercalate (r.emitted.map fun e => toString e.1)}"
   | _ => "bad-request"
 
+def hx (b : Bytes) : String := hexOrDash b
+def hxs (bs : List Bytes) : String := ",".intercalate (bs.map hx)
+
+def fmtRR (r : Spec.DnsRR) : String := s!"[{".".intercalate (r.name.map hx)} {r.rtype} {r.rclass} {r.ttl} {hx r.rdata}]"
+
+/-- `oracle frame <kind> <hex>`: the independent parsers of Spec/Framing.lean and Spec/Dns.lean -/
+def oracleFrame (kind : String) (b : Bytes) : String :=
+  match kind.splitOn ":" with
+  | ["lenpfx", w] => match w.toNat?.bind (fun w => Spec.parseLenPrefixed w b) with
+    | some (body, rest) => s!"ok body={hx body} rest={hx rest}" | none => "none"
+  | ["uint", w] => match w.toNat?.bind (fun w => Spec.parseUInt w b) with
+    | some (n, rest) => s!"ok n={n} rest={hx rest}" | none => "none"
+  | ["tlsrecord"] => match Spec.parseTlsRecord b with
+    | some (c, v, p, r) => s!"ok content={c} version={v} payload={hx p} rest={hx r}" | none => "none"
+  | ["handshake"] => match Spec.parseHandshake b with
+    | some (t, body, r) => s!"ok typ={t} body={hx body} rest={hx r}" | none => "none"
+  | ["extension"] => match Spec.parseExtension b with
+    | some ((e, d), r) => s!"ok ext={e} data={hx d} rest={hx r}" | none => "none"
+  | ["extlist"] => match Spec.parseExtensionList b with
+    | some l => s!"ok exts={",".intercalate (l.map fun e => s!"{e.1}:{hx e.2}")}" | none => "none"
+  | ["sni"] => match Spec.parseSni b with
+    | some (names, r) => s!"ok names={hxs names} rest={hx r}" | none => "none"
+  | ["certs"] => match Spec.parseCertificates b with
+    | some (cs, r) => s!"ok certs={hxs cs} rest={hx r}" | none => "none"
+  | ["ciphers"] => match Spec.parseCipherList b with
+    | some (ids, r) => s!"ok ids={",".intercalate (ids.map toString)} rest={hx r}" | none => "none"
+  | ["clienthello"] => match Spec.parseClientHello b with
+    | some (h, r) => s!"ok version={h.version} random={hx h.random} sid={hx h.sessionId} ciphers={",".intercalate (h.ciphers.map toString)} comp={hx h.compression} ext={match h.extensions with | some e => hx e | none => "absent"} rest={hx r}"
+    | none => "none"
+  | ["serverhello"] => match Spec.parseServerHello b with
+    | some (h, r) => s!"ok version={h.version} random={hx h.random} sid={hx h.sessionId} cipher={h.cipher} comp={h.compression} ext={match h.extensions with | some e => hx e | none => "absent"} rest={hx r}"
+    | none => "none"
+  | ["helloheader"] => match Spec.parseHelloHeader b with
+    | some ((t, v, rnd, body), r) => s!"ok typ={t} version={v} random={hx rnd} body={hx body} rest={hx r}" | none => "none"
+  | ["dhcpopt"] => match Spec.parseDhcpOption b with
+    | some ((o, d), r) => s!"ok opt={o} data={hx d} rest={hx r}" | none => "none"
+  | ["rr", n] => match n.toNat?.bind (fun n => Spec.parseRR n b) with
+    | some ((name, f), r) => s!"ok name={hx name} type={f.type} class={f.cls} ttl={f.ttl} data={hx f.rdata} rest={hx r}" | none => "none"
+  | ["name"] => match Spec.parseName b with
+    | some (labels, r) => s!"ok labels={".".intercalate (labels.map hx)} rest={hx r}" | none => "none"
+  | ["pointer"] => match Spec.parsePointer b with
+    | some (o, r) => s!"ok off={o} rest={hx r}" | none => "none"
+  | ["netbios"] => match Spec.netbiosDecode b with
+    | some d => s!"ok name={hx d}" | none => "none"
+  | ["flags"] =>
+    let f := Spec.splitFlags (beNat b)
+    s!"ok qr={f.qr} opcode={f.opcode} aa={f.aa} tc={f.tc} rd={f.rd} ra={f.ra} z={f.z} ad={f.ad} cd={f.cd} rcode={f.rcode}"
+  | ["dnsmsg"] => match Spec.parseDnsMessage b with
+    | some m =>
+      let f := m.flags
+      s!"ok id={m.id} qr={f.qr} opcode={f.opcode} aa={f.aa} tc={f.tc} rd={f.rd} ra={f.ra} z={f.z} ad={f.ad} cd={f.cd} rcode={f.rcode} counts={m.qdcount},{m.ancount},{m.nscount},{m.arcount} q={";".intercalate (m.questions.map fun q => s!"[{".".intercalate (q.name.map hx)} {q.qtype} {q.qclass}]")} an={";".intercalate (m.answers.map fmtRR)}"
+    | none => "none"
+  | ["dhcp"] =>
+    let fs : List (String × Spec.DhcpField) := [("op", .op), ("htype", .htype), ("hlen", .hlen), ("hops", .hops), ("xid", .xid),
+      ("secs", .secs), ("flags", .flags), ("ciaddr", .ciaddr), ("yiaddr", .yiaddr), ("siaddr", .siaddr), ("giaddr", .giaddr),
+      ("chaddr", .chaddr), ("sname", .sname), ("file", .file), ("magic", .magic)]
+    s!"ok len={b.length} " ++ " ".intercalate (fs.map fun (n, f) => s!"{n}={match Spec.dhcpField f b with | some v => hx v | none => "none"}")
+  | ["udpframe", raw] => match Spec.parseUdpFrame (raw == "1") b with
+    | some u => s!"ok sip={u.srcIp} sport={u.srcPort} dip={u.dstIp} dport={u.dstPort} payload={hx u.payload}" | none => "none"
+  | _ => "bad-request"
+
 def optNat (s : String) : Option (Option Nat) := if s == "-" then some none else s.toNat?.map some
 
 /-- op encoding: `open` `cm:HEX:ACK01:FO:SEQ:ACK` `sm:…` `cs:HEX:SEQ:ACK` `ss:…` `crs:…` `srs:…`
@@ -354,6 +419,13 @@ def cmdOracle (args : List String) : String :=
         | none => "err Type"
         | some (args, tail) => s!"ok args={";".intercalate (args.map fmtVal)} extra={";".intercalate (tail.map fmtVal)}"
     | _ => "bad-request nofunc"
+  | ["registry", m, name, n] =>
+    match n.toNat? with
+    | none => "bad-request"
+    | some n =>
+      if (Spec.Registry.tableOf m).isNone then "noregistry"
+      else if Spec.Registry.assigns m name n then "ok" else "mismatch"
+  | ["frame", kind, h] => match ofHex h with | some b => oracleFrame kind b | none => "bad-request"
   | "lex" :: lines =>
     -- Spec.lexLine over the given lines, threading the pending string (format of `lexlines` without end=)
     Id.run do
@@ -412,6 +484,7 @@ def dispatch (line : String) : String :=
     | "lit" => cmdLit args
     | "prog" => cmdProg args
     | "oracle" => cmdOracle args
+    | "docs" => " ".intercalate ((Docs.allPages Gen.lib Gen.docs).map fun (n, t) => s!"{n}={hexOrDash t.toUTF8.toList}")
     | _ => "bad-request"
 
 partial def loop (h : IO.FS.Stream) (out : IO.FS.Stream) : IO Unit := do
